@@ -145,6 +145,23 @@ def families(thorough):
             s.append(Case(t, stop='X', params=st))
             s.append(Case(t, stop='X', params=st, roles=(1, 1)))
     F['params'] = s
+    # -- a second client after the first: nothing of the first is visible to it
+    s = []
+    for a, pa in ((["q:SET TimeZone TO 'Asia/Tokyo'", 'select'], {'application_name': 'app_a'}), (['begin', "q:SET DateStyle TO 'German'", 'commit'], {}),
+                  (['select'], {'TimeZone': 'Europe/Paris', 'client_encoding': 'LATIN1'}), (['set', 'select'], {})):
+        for b, pb in ((['select'], {}), (['select', 'select2'], {'application_name': 'app_b'}), (['P', 'B', 'E', 'S'], {})):
+            for stop in ('X', 'eof'):
+                s.append(Case(a, stop=stop, params=pa, second=b, second_params=pb))
+    for a in (['Ps', 'Bs', 'E', 'S'], ['Ps', 'S'], ['begin', 'Ps', 'Bs', 'E', 'S'], ['Ps', 'S', 'Ps2', 'S']):
+        for b in (['Ps1b', 'Bs', 'E', 'S'], ['Bs', 'E', 'S'], ['Ps1b', 'S', 'Bs', 'E', 'S', 'Bs', 'E', 'S'], ['Ds', 'S']):
+            for cache in (4, 1):
+                for stop in ('X', 'eof'):
+                    s.append(Case(a, stop=stop, cache=cache, second=b))
+    for a in (['begin', 'select'], ['copyin', 'd'], ['begin', 'error'], ['setrole'], ['prepare'], ['Ps', 'Bs', 'E']):
+        for b in (['select'], ['P', 'B', 'E', 'S'], ['begin', 'select', 'commit']):
+            s.append(Case(a, stop='eof', second=b))
+            s.append(Case(a, stop='eof', second=b, mode='session'))
+    F['two-clients'] = s
     # -- COPY IN with chunk sizes on both sides of the 8196-byte forwarding threshold
     s = []
     sizes = ['d', 'dbig:8185', 'dbig:8192', 'dbig:9000'] + (['dbig:4000', 'dbig:20000'] if thorough else [])
@@ -198,6 +215,7 @@ DESCR = {
     'plugins': 'query parser on, the plugin verdict (allow / deny / intercept) of every parsed statement SYMBOLIC',
     'status': 'statements after each of which the backend reports a SYMBOLIC transaction status (any status PostgreSQL can reach from the previous one)',
     'params': 'sessions of a client whose startup values of tracked parameters differ from the servers\' (incl. a value with a quote), SETs of tracked and untracked parameters outside and inside BEGIN, on one server and on two (either may serve each transaction)',
+    'two-clients': 'a first client (tracked-parameter SETs, named statements with caching on, an open transaction / COPY / session state at EOF) followed by a second client on the same server connections with its own parameters, statement names and requests',
     'copy': 'COPY IN sessions whose CopyData chunks have sizes on both sides of the 8196-byte forwarding threshold (1-3 chunks, CopyDone or CopyFail, then another query)',
     'commands': 'sessions that use the pooler commands (SET SHARD / SET SHARDING KEY with SYMBOLIC decimal digits, SHOW SHARD, SET SERVER ROLE, SET PRIMARY READS) on a pool of two shards or of a primary and a replica, outside and inside BEGIN',
     'two-backends': 'a pool of two servers (replica+replica, primary+replica): either may be handed out at each checkout',
@@ -226,7 +244,7 @@ def handle_obligations(chk, prog, props, fams):
     tasks = []
     for fam in fams:
         cases = F[fam]
-        n = max(1, min(12, len(cases) // (4 if fam in ('status', 'plugins', 'malformed', 'commands', 'cache', 'params') else 40)))
+        n = max(1, min(12, len(cases) // (4 if fam in ('status', 'plugins', 'malformed', 'commands', 'cache', 'params', 'two-clients') else 40)))
         for i in range(n):
             tasks.append((prog, fam, i, n, cases[i::n], set(props)))
     chk.parallel(_run_chunk, tasks)
